@@ -27,7 +27,7 @@ MANIFEST = {
                  'history-level lemmas; z3/cvc5; native replay; exhaustive short histories and random long histories as bounded stand-in',
 }
 UNITS = ['unit_sound', 'unit_default', 'unit_monotone', 'unit_lemmas']
-BOUNDED = ['bounded_histories']
+BOUNDED = ['bounded_histories', 'bounded_purity']
 META = {'clauses': {'C04.E1': 'P', 'C04.E2': 'P', 'C04.E3': 'P (product invariant over the real loop body; DataFrame build + row-local filter preserve the subset relation: argued, A-PANDAS)', 'pandas row/groupby semantics': 'A'},
         'not_decided': []}
 
@@ -687,3 +687,10 @@ def bounded_histories(tier, seed):
         if r['reproduced']:
             st.violation('history', r['detail'], 'verif.props.c04:replay_history', inp)
     return st.result()
+
+
+# generic purity stand-in (arguments unchanged, second call equal, fresh call equal) over this property's API calls
+from verif.native.purity import make_bounded as _make_purity  # noqa: E402
+from verif.props.purity_reg import REG as _PURITY_REG  # noqa: E402
+PURITY = _PURITY_REG['C04']
+bounded_purity = _make_purity('C04', PURITY)
